@@ -34,6 +34,8 @@ def classify(case):
         return "credentials-accepted-by-another-proxy-of-the-process-open-this-one"
     if (case.get("spec") or {}).get("handler") and q.get("form") == "origin" and (st == 500 or o.get("from_peer")):
         return "handler-variant-origin-form-request-not-judged-by-its-host-field"
+    if ct.startswith("long-") and st != 407:
+        return "long-credentials-differing-in-the-tail-accepted"
     if (case.get("spec") or {}).get("empty_pass") and "no-colon" in ct and st != 407:
         return "colonless-credentials-accepted-for-a-user-with-empty-password"
     if ct.startswith(("value-", "token-")) and st != 407 and (case.get("spec") or {}).get("auth"):
@@ -129,7 +131,7 @@ def run_harness(ctx, name, ob_failed, extra_args=()):
         if kind not in cache:
             cache[kind] = load_jsonl(os.path.join(ctx.work, kind + ".jsonl"))
         src = cache[kind]
-        base = idx * meta["shard_size"]
+        base = idx * (meta.get("shard_sizes") or {}).get(kind, meta["shard_size"])
         mb, pb = bad.setdefault(kind, ([], []))
         for ident, acc in (("M", mb), ("P", pb)):
             for i in (ctx.parse_nlist(r.get(ident)) or []):
@@ -148,6 +150,8 @@ def run(ctx):
     n_model_bad = n_prop_bad = 0
     # end-to-end cases: group the property failures by input class
     xm, xp = bad.get("xcases", ([], []))
+    ym, yp = bad.get("ycases", ([], []))      # end-to-end cases with long literals (shards of their own)
+    xm, xp = xm + ym, xp + yp
     n_model_bad += len(xm)
     n_prop_bad += len(xp)
     groups = {}
